@@ -125,11 +125,20 @@ fn concrete(algo: &str, k: Kind, a: &hpo::HpoTerm, b: &hpo::HpoTerm) -> f32 {
 
 fn check_ont(st: &mut Stats, prop: &str, line: &Value, conc: &Concretisation, path: &str, ont: &Ontology, exp: &Expected, pairs: &[PairArgs]) {
     let mut diffs: Vec<String> = vec![];
+    // C04 is about the FORMULAS: they are evaluated on the terms' own (observed) information content,
+    // and only when the ancestor / annotation sets they read are the ones the specification derived
+    // (if those differ, C01 / C02 are broken, which is their checks' business, not C04's).
+    if !compare(ont, exp, &[Focus::Struct, Focus::Ann]).is_empty() {
+        st.bump("skipped_inputs_differ_from_spec", 1);
+        return;
+    }
     let mut ic: BTreeMap<u32, [f64; 3]> = BTreeMap::new();
-    for (id, t) in &exp.terms {
+    for (id, _) in &exp.terms {
         let mut v = [0.0; 3];
-        for k in KINDS {
-            v[k as usize] = ic_expected(t.ann[k as usize].len(), exp.n_total(k));
+        if let Some(t) = ont.hpo(*id) {
+            for k in KINDS {
+                v[k as usize] = t.information_content().get_kind(&ic_kind(k)) as f64;
+            }
         }
         ic.insert(*id, v);
     }
